@@ -38,7 +38,8 @@ Check ==
          \* pairs in ascending order (they may stop early, with or without an error, but never invent or alter data)
          IF Ev.open # "ok" /\ Ev.open # "err" THEN "damage-panic"
          ELSE IF Ev.open = "err" THEN "ok"
-         ELSE IF \E i \in 1..Len(Ev.gets) : ~DamageOkFor(Ev.kind, orig[i][2], IF Ev.gets[i] = "err" THEN "readFailed" ELSE Ev.gets[i]) THEN "damage-get-different-value"
+         \* gets[i] answers the Get of the written pair number gk[i]
+         ELSE IF \E i \in 1..Len(Ev.gets) : ~DamageOkFor(Ev.kind, orig[Ev.gk[i]][2], IF Ev.gets[i] = "err" THEN "readFailed" ELSE Ev.gets[i]) THEN "damage-get-different-value"
          ELSE IF ~ScanGenuine(Ev.kind, Ev.scan) THEN "damage-scan-different-data"
          ELSE IF ~ScanGenuine(Ev.kind, Ev.range) THEN "damage-range-scan-different-data"
          ELSE "ok"
